@@ -124,11 +124,32 @@ def _lk_model(cx, port):
     mod = cx.engine_mod(port)
 
     class AbsStr(list):
+        # a string as its sequence of code units (JS: UTF-16 units - indexing, length, substring and charAt count units); iterating a
+        # JS string (for-of, Array.from, spread) walks code points: a high surrogate and the low surrogate after it come out as one item
         is_abs_str = True
 
         def __getitem__(self, k):
             r = list.__getitem__(self, k)
             return AbsStr(r) if isinstance(k, slice) else r
+
+        def __iter__(self):
+            units = [list.__getitem__(self, i) for i in range(len(self))]
+            i = 0
+            while i < len(units):
+                u = units[i]
+                if port == 'js' and isinstance(u, AX.Abs) and u.props.get('surrogate') == 'high' and i + 1 < len(units) and isinstance(units[i + 1], AX.Abs) and units[i + 1].props.get('surrogate') == 'low':
+                    yield AbsStr([u, units[i + 1]])
+                    i += 2
+                else:
+                    yield u
+                    i += 1
+
+    def units(seq):
+        out = []
+        for i in range(len(seq)):
+            x = list.__getitem__(seq, i)
+            out.extend(units(x) if isinstance(x, list) else [x])
+        return out
 
     def on_call(ex, node, fname, recv, args):
         short = node.func.attr if isinstance(node.func, ast.Attribute) else fname
@@ -139,7 +160,7 @@ def _lk_model(cx, port):
             if isinstance(seg, str):
                 seg = list(seg)
             if isinstance(seg, list):
-                return AX.Abs('Esc', seg=tuple(seg))
+                return AX.Abs('Esc', seg=tuple(units(seg)))
         if short in ('endswith', 'endsWith', 'startswith', 'startsWith') and len(args) == 1 and isinstance(args[0], str) and isinstance(recv, (str, AX.Abs)) and not (isinstance(recv, AX.Abs) and recv.kind not in ('Text', 'Esc', 'Joined')):
             # a test on the text built so far: decided when the text ends (starts) with constant characters; an escaped pattern
             # character may or may not be the character asked for, so both answers are explored
@@ -180,18 +201,26 @@ def _lk_model(cx, port):
             return list(v)
         if isinstance(v, list):
             out = []
-            for x in v:
+            for x in units(v):
                 out.extend([('raw', x)] if not isinstance(x, list) else flat(x))
             return out
         return [('raw', v)]
     bad = {}
     n = 0
     try:
-        for ln in range(0, 5):
-            for shape in itertools.product('%_L', repeat=ln):
+        shapes = [sh for ln in range(0, 5) for sh in itertools.product('%_L', repeat=ln)]
+        if port == 'js':
+            # A = a character outside the basic plane: two UTF-16 code units
+            shapes += [sh for ln in range(1, 4) for sh in itertools.product('%_LA', repeat=ln) if 'A' in sh]
+        for shape in shapes:
+            if True:
                 pat = AbsStr()
                 for k, c in enumerate(shape):
-                    pat.append(c if c != 'L' else AX.Abs('Chr', id='c%d' % k, distinct=True))
+                    if c == 'A':
+                        list.append(pat, AX.Abs('Chr', id='c%dh' % k, distinct=True, surrogate='high'))
+                        list.append(pat, AX.Abs('Chr', id='c%dl' % k, distinct=True, surrogate='low'))
+                    else:
+                        list.append(pat, c if c != 'L' else AX.Abs('Chr', id='c%d' % k, distinct=True))
                 ex = AX.Explorer(p, mod, on_call=on_call, max_choices=4, follow=True)
                 runs, cut = ex.explore(fd, [pat])
                 if not runs or any(r_.outcome[0] != 'return' for r_ in runs):
@@ -199,7 +228,7 @@ def _lk_model(cx, port):
                     return None
                 n += 1
                 # with several runs (answers explored both ways) the first one that differs from the expected text is reported
-                want0 = ['^'] + [y for c in pat for y in (['.'] if c == '_' else (['.', '*'] if c == '%' else [('esc', c)]))] + ['$']
+                want0 = ['^'] + [y for c in units(pat) for y in (['.'] if c == '_' else (['.', '*'] if c == '%' else [('esc', c)]))] + ['$']
                 letters = {}
 
                 def _regex_text(seq):
@@ -235,7 +264,7 @@ def _lk_model(cx, port):
                 same = not bad_runs
                 if same:
                     continue
-                shown = ''.join(shape).replace('L', 'x')
+                shown = ''.join(shape).replace('L', 'x').replace('A', '<astral character>')
 
                 def show(seq):
                     return ''.join(x if isinstance(x, str) else ('\\' + ('x' if isinstance(x[1], AX.Abs) else str(x[1])) if x[0] == 'esc' else '<unescaped ' + ('x' if isinstance(x[1], AX.Abs) else repr(x[1])) + '>') for x in seq)
